@@ -768,6 +768,23 @@ func init() {
 			c.Run(kBedDecode, L(S(s), I(0)), true, "decode/literal")
 			c.Run(kBedDecode, L(S(s), I(1)), true, "decode/literal")
 		}
+		// 4b. exhaustive small scope: every input over {a TAB 1 LF # CR} up to a length
+		// (the shortest record "a\t1\t1" has 5 bytes), clean end of stream and failing stream
+		maxLen := c.Pick(6, 7)
+		allStrings([]byte("a\t1\n#\r"), maxLen, func(s []byte) {
+			c.Run(kBedDecode, L(B(s), I(0)), bytes.Count(s, []byte("\t")) >= 2, "decode/exhaustive")
+			if len(s) <= 5 {
+				c.Run(kBedDecode, L(B(s), I(1)), bytes.Count(s, []byte("\t")) >= 2, "decode/exhaustive-fault")
+			}
+		})
+		// every tail over {1 TAB , LF - a} up to length 5 after the prefix of an N=8 line:
+		// the RGB, block count and block list fields
+		allStrings([]byte("1\t,\n-a"), c.Pick(5, 6), func(t []byte) {
+			s := append([]byte("c\t1\t2\tn\t0\t+\t3\t4\t"), t...)
+			c.Run(kBedDecode, L(B(s), I(0)), true, "decode/exhaustive-tail")
+		})
+		c.Exhaustive(fmt.Sprintf("bed_decode: all inputs over {a TAB 1 LF # CR} of length <= %d; all tails over {1 TAB , LF - a} of length <= %d after an 8-field prefix", maxLen, c.Pick(5, 6)))
+
 		// 5. strconv.ParseUint(_, 0, 8)
 		for _, tok := range bedUintTokens {
 			c.Run(kBedParseUint, S(tok), tok != "", "parseuint/pool")
